@@ -663,5 +663,5 @@ pub fn run(ctx: &Ctx) {
     let env = Env { ctx, probe_dir: root.clone(), root: is_root, relocs: relocs.clone(), target: RefCell::new(None) };
     ctx.run_prop_opts("lookup-var-unix", ctx.cases(150, 3000), 600, lookup_case(thorough), |c: &Case| run_case(&env, c, Scope::VarUnix));
     let env = Env { ctx, probe_dir: root, root: is_root, relocs: relocs.clone(), target: RefCell::new(None) };
-    ctx.run_prop_opts("startup", ctx.cases(1200, 30_000), 1500, startup_case(thorough), |c: &Case| run_case(&env, c, Scope::All));
+    ctx.run_prop_opts("startup", ctx.cases(1200, 20_000), 1500, startup_case(thorough), |c: &Case| run_case(&env, c, Scope::All));
 }
